@@ -317,4 +317,7 @@ def run(ctx, chk):
     okv = not bad and sh.ret_type == "void"
     chk.ob("C16.reach", "the decoder's string callback never consults the unicode status", okv, "%s:%d" % (cb.file, cb.line),
            fn=cb.name, detail="" if okv else "calls %s / set_handle returns a value" % bad)
+    chk.rule("C16.getter", "cbor_string_codepoint_count and cbor_string_length report the stored values as they are: every path returns "
+             "the item's field (no second opinion in the accessor; shared field-accessor rule)")
+    rules.check_field_getters(chk, "C16.getter", prog, eff, names=("cbor_string_codepoint_count", "cbor_string_length", "cbor_string_handle"))
     chk.exhaustive = True
